@@ -1,6 +1,8 @@
 import Driver.C20
+import Driver.LibMem
 
 def main (args : List String) : IO UInt32 :=
   match args with
   | ["c20"] => Driver.C20.main
+  | ["libmem"] => Driver.LibMem.main
   | _ => do IO.eprintln "usage: nridrv <property>"; return 2
